@@ -186,8 +186,10 @@ c19_summarise(const char *text, char *buf, size_t bsz)
 		strcpy(acc, "WRITE");
 		size = atoi(p + 14);
 	}
+	(void)size;
 	if (*acc) {
-		snprintf(buf, bsz, "%s %s %d", kind, acc, size);
+		/* the size of the access depends on the file, the kind of access does not */
+		snprintf(buf, bsz, "%s %s", kind, acc);
 	} else {
 		snprintf(buf, bsz, "%s", kind);
 	}
@@ -208,8 +210,10 @@ enum { C19_ASAN = 1, C19_SIGNAL = 2, C19_TIMEOUT = 3, C19_EXIT = 4 };
 static void
 c19_batch(long n, void (*one)(long), void (*crashed)(long, int, int, const char*))
 {
-	long start = 0;
+	long start = 0, retried = -1;
+	int retries = 0;
 	EX_CTR(c_forks, "children_forked");
+	EX_CTR(c_retry, "children_restarted_after_an_unexplained_exit");
 	EX_CTR(c_died, "cases_that_ended_their_child");
 
 	while (start < n) {
@@ -260,6 +264,18 @@ c19_batch(long n, void (*one)(long), void (*crashed)(long, int, int, const char*
 		} else if (WIFSIGNALED(st)) {
 			crashed(c19->cur, C19_SIGNAL, WTERMSIG(st), "");
 		} else {
+			/* neither a report nor a signal (the sanitizer run-time giving up under memory
+			 * pressure looks like this): the same case again, up to three times */
+			if (retried != c19->cur) {
+				retried = c19->cur;
+				retries = 0;
+			}
+			if (retries++ < 3) {
+				++*c_retry;
+				--*c_died;
+				start = c19->cur;
+				continue;
+			}
 			crashed(c19->cur, C19_EXIT, WIFEXITED(st) ? WEXITSTATUS(st) : -1, "");
 		}
 		start = c19->cur + 1;
